@@ -31,6 +31,7 @@ fn main() {
     match suite.as_str() {
         "pool" => suites::pool::main(seed, first, runs, ops, &out),
         "vault" => suites::vault::main(seed, first, runs, ops, &out),
+        "lair" => suites::lair::main(seed, first, runs, ops, &out, kv.get("sched"), kv.get("table").and_then(|t| t.parse().ok())),
         "math" => suites::math::main(seed, first, runs, ops, &out, kv.get("kind").map(|s| s.as_str()).unwrap_or("all")),
         _ => {
             eprintln!("unknown suite {suite}");
